@@ -96,6 +96,25 @@ def same_modulo_undef(spec_reply, other):
     return True
 
 
+def pointer_globals(module):
+    """globals whose initialiser contains an address: their bytes are layout dependent"""
+    return {v.name for v in module.variables
+            if v.value and any(not isinstance(p, (bytes, bytearray)) for p in v.value)}
+
+
+def mask_globals(reply, names):
+    """replace the bytes of the named globals by `*` in a canonical string"""
+    if not names or " globals=" not in reply:
+        return reply
+    head, rest = reply.split(" globals=", 1)
+    g, tail = rest.split(" ", 1) if " " in rest else (rest, "")
+    items = []
+    for kv in g.split(","):
+        n = kv.split("=", 1)[0]
+        items.append(f"{n}=*" if n in names else kv)
+    return head + " globals=" + ",".join(items) + (" " + tail if tail else "")
+
+
 # ---- Spec.IR through the driver -----------------------------------------------------
 
 def spec_requests(gen, cases, fuel=200000, ptr=None, text=None):
@@ -254,3 +273,46 @@ def native_results(gen, cases, timeout=60):
         out.append(err or "crash")
         err = "not-run" if err in ("crash", "timeout") else err
     return out
+
+
+# ---- debugging aid: make every intermediate integer value observable ---------------------------
+
+def instrument(gen, only=None):
+    """Insert `probe(id, (i64) value)` external-procedure calls after every integer/pointer-free value
+    of every (or the named) function, IN PLACE.  The external-call trace of any executor then lists
+    the values in execution order, so the first diverging instruction can be read off.
+    Returns {id: "func/block: instruction text"}."""
+    m = gen.module
+    probe = ir.ExternalProcedure("probe", [ir.i64, ir.i64])
+    m.add_external(probe)
+    gen.externals.append(("probe", [ir.i64, ir.i64], None))
+    table, n = {}, 0
+    for f in m.functions:
+        if only and f.name not in only:
+            continue
+        for b in f.blocks:
+            new = []
+            pending = []
+            for i in list(b.instructions):
+                if not i.is_phi and pending:
+                    new.extend(pending)
+                    pending = []
+                new.append(i)
+                if isinstance(i, ir.LocalValue) and isinstance(i.ty, ir.IntegerTyp):
+                    n += 1
+                    table[n] = f"{f.name}/{b.name}: {i}"
+                    idc = ir.Const(n, f"prb_id{n}", ir.i64)
+                    v = i if i.ty is ir.i64 else ir.Cast(i, f"prb_v{n}", ir.i64)
+                    call = ir.ProcedureCall(probe, [idc, v])
+                    seq = [idc] + ([v] if v is not i else []) + [call]
+                    if i.is_phi:
+                        pending.extend(seq)
+                    else:
+                        new.extend(seq)
+            for i in new:
+                i.block = b
+            b.instructions = new
+            for i in new:
+                if isinstance(i, ir.Value) and i.name.startswith("prb_"):
+                    f.make_unique_name(i)
+    return table
